@@ -1,0 +1,102 @@
+//go:build verif
+
+package raftlog
+
+// Contracts for /verif (gvc). Comment-only file; see /verif/DESIGN.md §5 C17.
+// The answers of RaftDiskStorage are specified relative to what the entry log / meta file report
+// (ghost results of firstIndex / lastIndex / Term / Uint): the etcd MemoryStorage case analysis.
+
+//@ prop C17
+
+//@ func (*entryLog).firstIndex
+//@   trusted reads the first slot of the oldest file
+//@   assigns nothing
+//@ func (*entryLog).lastIndex
+//@   trusted reads the last written slot
+//@   assigns nothing
+//@ func (*metaFile).Uint
+//@   trusted reads the memory-mapped meta page
+//@   assigns nothing
+
+// Entries(lo,hi): compacted below the first index, unavailable beyond last+1, otherwise served from the log.
+//@ func (*RaftDiskStorage).Entries
+//@   ghost f uint64 = 0
+//@   ghost l uint64 = 0
+//@   ghost gotF bool = false
+//@   ghost gotL bool = false
+//@   call (*entryLog).firstIndex
+//@     set f = ret0
+//@     set gotF = true
+//@   call (*entryLog).lastIndex
+//@     set l = ret0
+//@     set gotL = true
+//@   call (*entryLog).allEntries
+//@     requires gotF && gotL && f <= lo && hi <= l + 1 && arg0 == lo && arg1 == hi && arg2 == maxSize
+//@   ensures gotF
+//@   ensures lo < f ==> result1 == raft.ErrCompacted && len(result0) == 0
+//@   ensures lo >= f && gotL && hi > l + 1 ==> result1 == raft.ErrUnavailable && len(result0) == 0
+//@   ensures result1 == nil ==> gotL && lo >= f && hi <= l + 1
+
+// Term(i): the log's answer if it has one; otherwise compacted below the snapshot index and the snapshot
+// term exactly at it.
+//@ func (*RaftDiskStorage).Term
+//@   ghost te Iface = nil
+//@   ghost t uint64 = 0
+//@   ghost si uint64 = 0
+//@   ghost st uint64 = 0
+//@   call (*entryLog).Term
+//@     requires arg0 == idx
+//@     set t = ret0
+//@     set te = ret1
+//@   call (*metaFile).Uint
+//@     set si = (arg0 == SnapshotIndex ? ret0 : si)
+//@     set st = (arg0 == SnapshotTerm ? ret0 : st)
+//@   ensures te == nil ==> result0 == t && result1 == nil
+//@   ensures te != nil && idx < si ==> result1 == raft.ErrCompacted
+//@   ensures te != nil && idx == si ==> result0 == st && result1 == nil
+//@   ensures te != nil && idx > si ==> result1 == te
+
+// LastIndex = max(last log index, snapshot index)
+//@ func (*RaftDiskStorage).LastIndex
+//@   ghost li uint64 = 0
+//@   ghost si uint64 = 0
+//@   call (*entryLog).lastIndex
+//@     set li = ret0
+//@   call (*metaFile).Uint
+//@     requires arg0 == SnapshotIndex
+//@     set si = ret0
+//@   ensures result1 == nil && result0 >= li && result0 >= si && (result0 == li || result0 == si)
+
+// Save: entries, then hard state, then snapshot; each step only if the previous one succeeded.
+//@ func (*RaftDiskStorage).Save
+//@   requires rds != nil && rds.entryLog != nil
+//@   ghost s int = 0
+//@   call (*entryLog).AddEntries
+//@     requires s == 0 && arg0 == entries
+//@     set s = (ret0 == nil ? 1 : -1)
+//@   call (*metaFile).StoreHardState
+//@     requires s == 1 && arg0 == h
+//@     set s = (ret0 == nil ? 2 : -1)
+//@   call (*metaFile).StoreSnapshot
+//@     requires s == 2 && arg0 == snap
+//@     set s = (ret0 == nil ? 3 : -1)
+//@   ensures result == nil ==> s == 3
+
+// Conflicting append that lands in an already rotated file: every later file AND the former current file are
+// deleted (otherwise the stale file resurfaces as the current one after a reopen).
+//@ func (*entryLog).AddEntries
+//@   requires l != nil
+//@   ghost fi int = 0
+//@   ghost li int = -1
+//@   ghost asked bool = false
+//@   ghost curDel bool = false
+//@   call (*entryLog).slotGe
+//@     set fi = ret0
+//@     set li = ret1
+//@     set asked = true
+//@   call (*logFile).delete
+//@     frame nothing
+//@     set curDel = curDel || recv == old(l.current)
+//@   ensures result == nil && asked && li >= 0 && fi != -1 ==> curDel
+//@   loop 1
+//@     invariant curDel || (rangeindex < len(extra) - 1 && extra[len(extra)-1] == old(l.current))
